@@ -49,7 +49,7 @@ fn once_body<const NV: usize, const NA: usize>(fast_start: bool, audio: bool) {
     assert!(matches!(r4, Err(muxide::verif_hooks::mp4::Mp4WriterError::AlreadyFinalized)), "audio write after finalize is refused");
     assert!(mp4h::sink(&w).total == total && mp4h::sink(&w).calls == calls, "nothing further is written");
     assert!(mp4h::video_sample_count(&w) == NV as u64 && mp4h::audio_sample_count(&w) == NA as u64 && mp4h::bytes_written(&w) == total, "statistics unchanged by refused calls");
-    kani::cover!(true, "reached");
+    crate::vcover!(true, "reached");
     core::mem::forget((w, r, r2, r3, r4));
 }
 
@@ -120,7 +120,7 @@ fn end_body<const NV: usize, const NA: usize>(assume_known: bool) {
         (Some(g), Some(x)) => assert!(g == x, "reported end = largest presentation end time over all samples"),
         _ => panic!("presence of an end time differs"),
     }
-    kani::cover!(NV >= 2 && vpts[0] > vpts[1], "reordered video");
+    crate::vcover!(NV >= 2 && vpts[0] > vpts[1], "reordered video");
     core::mem::forget(w);
 }
 
@@ -192,6 +192,6 @@ h!(c06_api_finish_once, 12, {
     let r5 = m.write_video(kani::any(), &crate::apistep::VP9_DELTA, kani::any());
     assert!(r5.is_err(), "write_video after finish is refused");
     assert!(mp4h::sink(apih::writer(&m)).total == total, "nothing further is written");
-    kani::cover!(true, "reached");
+    crate::vcover!(true, "reached");
     core::mem::forget((m, a, b, r1, r2, r3, r4, r5));
 });
